@@ -219,7 +219,7 @@ func cmdIntexpr(args []string) int {
 		}
 		var sb strings.Builder
 		sb.WriteString("(set-logic ALL)\n(set-option :produce-models true)\n(declare-const pts Int)\n(declare-const refPTS Int)\n(declare-const rate Int)\n")
-		two62 := new(big.Int).Lsh(big.NewInt(1), 62).String()
+		two62 := new(big.Int).Lsh(big.NewInt(1), 61).String() // |pts - refPTS| <= 2^62: the subtraction cannot wrap
 		fmt.Fprintf(&sb, "(assert (and (>= pts (- %s)) (<= pts %s) (>= refPTS (- %s)) (<= refPTS %s)))\n(assert (= rate %d))\n", two62, two62, two62, two62, r)
 		sb.WriteString("(declare-const Q Int)\n(declare-const R Int)\n(define-fun N () Int (* (- pts refPTS) 1000000000))\n(define-fun D () Int rate)\n")
 		sb.WriteString("(assert (and (= N (+ (* Q D) R)) (< (abs R) (abs D)) (or (= R 0) (= (< R 0) (< N 0)))))\n")
@@ -300,7 +300,7 @@ func cmdIntexpr(args []string) int {
 	result["discharged"] = nDis
 	result["solver_s"] = zz.total
 	result["solver_runs"] = zz.n
-	result["bounds"] = "pts, refPTS in [-2^62, 2^62]; exact result representable in int64 (precondition); clock rates as listed"
+	result["bounds"] = "pts, refPTS in [-2^61, 2^61]; exact result representable in int64 (precondition); clock rates as listed"
 	result["claim"] = "every machine operation of the added duration is overflow-free and the duration equals trunc((pts-refPTS)·1e9/ClockRate): while the reference is kept, absolute timestamps differ by the frame timestamp difference (up to the truncation below 1 ns for rates that do not divide 1e9)"
 	fmt.Printf("C25 step clause %s: rates=%d obligations=%d discharged=%d violations=%d solver=%.1fs wall=%.1fs exit=%d\n",
 		*tier, len(rates), nObl, nDis, nviol, zz.total, time.Since(start).Seconds(), exit)
